@@ -130,13 +130,27 @@ Definition w_member_lost : list N := [108;111;99;97;108;32;102;117;110;99;116;10
 (* function M.f() end : a member of a name the file never defines (class member_of_undeclared, repaired) *)
 Definition w_undeclared : list N := [102;117;110;99;116;105;111;110;32;77;46;102;40;41;32;101;110;100;10]%N.
 
-(* before this round's repairs only w_global and w_before were covered; now every witness file except the one of the
-   open class member_lost is *)
+(* function init() Cfg = {} end <LF> init() <LF> function Cfg.load() end : a member of a global that is defined at a
+   deeper level than the member (was shape (b) of member_lost; repaired, Symbols.deep_global_fix) *)
+Definition w_deep_global : list N :=
+  [102;117;110;99;116;105;111;110;32;105;110;105;116;40;41;32;67;102;103;32;61;32;123;125;32;101;110;100;10;
+   105;110;105;116;40;41;10;102;117;110;99;116;105;111;110;32;67;102;103;46;108;111;97;100;40;41;32;101;110;100;10]%N.
+(* _G.GT = {} <LF> function _G.GT.f() end *)
+Definition w_G_member : list N :=
+  [95;71;46;71;84;32;61;32;123;125;10;102;117;110;99;116;105;111;110;32;95;71;46;71;84;46;102;40;41;32;101;110;100;10]%N.
+(* N = { sub = { f = function() end } } <LF> function N.sub.h() end : members below the first level (open class member_depth2) *)
+Definition w_depth2 : list N :=
+  [78;32;61;32;123;32;115;117;98;32;61;32;123;32;102;32;61;32;102;117;110;99;116;105;111;110;40;41;32;101;110;100;32;125;32;125;10;
+   102;117;110;99;116;105;111;110;32;78;46;115;117;98;46;104;40;41;32;101;110;100;10]%N.
+
+(* before round 2b only w_global and w_before were covered; now every witness file is, except those of the open classes:
+   member_lost (w_member_lost) and member_depth2 (w_depth2, and the field cfg.sub.deep of w_rich) *)
 Lemma full_cover_witnesses :
   map (full_cover fx_round1) [w_global; w_rich; w_local; w_assigned; w_shadow; w_before; w_undeclared; w_member_lost] =
     [Some true; Some false; Some false; Some false; Some false; Some true; Some false; Some false] /\
-  map (full_cover deployed) [w_global; w_rich; w_local; w_assigned; w_shadow; w_before; w_undeclared; w_member_lost] =
-    [Some true; Some true; Some true; Some true; Some true; Some true; Some true; Some false].
+  map (full_cover deployed) [w_global; w_rich; w_local; w_assigned; w_shadow; w_before; w_undeclared; w_member_lost;
+                             w_deep_global; w_G_member; w_depth2] =
+    [Some true; Some false; Some true; Some true; Some true; Some true; Some true; Some false; Some true; Some true; Some false].
 Proof. vm_compute. split; reflexivity. Qed.
 
 (* ------------------------------------------------------------------ the lexical guard *)
